@@ -77,7 +77,10 @@ Definition del_ok (rs : list rel) (s : state) (i : N) : bool :=
                 (N.eqb (o_st c) 2 && negb (memN (fst e) (o_pd c)) &&
                  match get_rel rs (fst e) with Some r => r_o2m r | None => false end)) (o_par c))
           (objs s) &&
-  negb (existsb (fun x => (N.eqb (snd (fst x)) i || N.eqb (snd x) i)) (padd s)).
+  negb (existsb (fun x => (N.eqb (snd (fst x)) i || N.eqb (snd x) i)) (padd s)) &&
+  (* ... and o itself has not been re-parented since the last flush (an append to a collection cancels the
+     delete for one flush: see the known finding) *)
+  match get_obj s i with Some o => match o_pd o with [] => true | _ => false end | None => false end.
 
 (* re-parenting is modelled when it creates no cycle among the current links and the links of the rows
    (the unit of work orders rows by both: with a cycle it raises CircularDependencyError; see C31) *)
